@@ -157,7 +157,7 @@ HighWeights == {<<RZero, RZero, RZero, RZero, R(1, 8)>>, <<RZero, ROne, RZero, R
                 <<R(1, 2), RZero, RZero, RZero, RZero, RZero, R(1, 16)>>}
 \* ... and on the highest order pair, so that total degrees 10 .. 12 occur and the rules with 6 and 7 points are needed
 HighWeights33 == {<<RZero, RZero, RZero, RZero, ROne>>, <<RZero, RZero, RZero, RZero, RZero, ROne>>}
-WeightsFor(a, b) == Weights \cup (IF a.o + b.o <= 2 THEN HighWeights ELSE IF a.o = 3 /\ b.o = 3 THEN HighWeights33 ELSE {})
+WeightsFor(a, b) == Weights \cup (IF a.o + b.o <= 2 THEN HighWeights ELSE IF a.o = 3 /\ b.o = 3 /\ a.g = E4 THEN HighWeights33 ELSE {})
 
 J(x) == x   \* (documentation: values below are serialised with ToJson)
 
@@ -237,7 +237,7 @@ FpSweepCases(n) ==
              E |-> WeightedVal(<<ROne>>, a1, y), S |-> WeightedAbs(<<ROne>>, a1, y)] : y \in {a1, b}}
 
 Init == \/ st = [ph |-> 0, kind |-> "x"]
-        \/ \E n \in SweepSizes : st = [ph |-> 0, kind |-> "sw", n |-> n]
+        \/ \E n \in (1..40) \cup {63, 64, 65, 66} : st = [ph |-> 0, kind |-> "sw", n |-> n]    \* (both tiers: 32-bit integers)
         \/ st = [ph |-> 0, kind |-> "far"]
         \/ \E k \in FpKnots : st = [ph |-> 0, kind |-> "k", k |-> k]
         \/ \E g \in FpGrids : \E a \in SplsOn(g) : st = [ph |-> 0, kind |-> "a", a |-> a]
